@@ -207,7 +207,7 @@ public:
         return {
           Scalar(0.5) - wz2 / 24,
           Scalar(1. / 6) - wz2 / 120,
-          -wz / 48,
+          -wz / 12,
           -wz / 60,
         };
       } else {
